@@ -1,7 +1,8 @@
 /-
   Helper lemmas for C10 (and the built-in level of C01): "no C-level hazard" for the text and
   conversion built-ins of Model/Builtins.lean at `m := Res`, for every argument list of well-formed
-  values of any length and any types. `wfVal`, the recorded-finding regions `substrKF`, `hexKF`.
+  values of any length and any types. `wfVal`. (The former finding regions `substrKF`, `hexKF` are gone:
+  the overflows were repaired in e2c4824 / cbe22cc, and the lemmas below hold without exclusion.)
   (Helper lemmas only — the property theorems are in BlocV/Proofs/C10.lean.)
 -/
 import BlocV.Proofs.Lemmas.Bytes
@@ -156,46 +157,22 @@ theorem asRaw_ok (v : Val) (s : Bytes) (h : v.asRaw = .ok s) : v = .raw s := by
   · cases v <;> simp at h
     rw [h]
 
-/-- The position argument as `substr`/`subraw` read it (`none`: null, error or not a number). -/
-def posArgOf (v : Val) : Option Int64 :=
-  match readPos v with
-  | .ok (.pos i) => some i
-  | _ => none
-
-/-- Region of the recorded findings C10.substr.signedOverflow / C10.subraw.signedOverflow
-(= C01.bi.substr.overflow / C01.bi.subraw.overflow): a non-empty string or byte array and a
-begin position equal to INT64_MIN (integer, or the decimal −2^63). -/
-def substrKF (args : List Val) : Bool :=
-  match args with
-  | v0 :: v1 :: _ =>
-    (match v0 with
-      | .str s => !s.isEmpty
-      | .raw s => !s.isEmpty
-      | _ => false) && posArgOf v1 == some Int64.minValue
-  | _ => false
-
-theorem substrTail_nh (s : Bytes) (hlen : s.length < 2 ^ 63) (hne : s ≠ []) (a0 b0 : Int64)
-    (ha : a0 ≠ Int64.minValue) : (substrTail s a0 b0).isHazard = false := by
-  rw [substrTail_spec s hlen hne, if_neg ha]; rfl
+/-- The index arithmetic of `substr`/`subraw` never overflows, for ALL positions and counts. -/
+theorem substrTail_nh (s : Bytes) (hlen : s.length < 2 ^ 63) (a0 b0 : Int64) :
+    (substrTail s a0 b0).isHazard = false := by
+  rw [substrTail_spec s hlen]; rfl
 
 theorem substrLike_nh (major : Major) (nullTy : Ty) (get : Val → Res Bytes) (mk : Bytes → Val)
     (hget : ∀ v s, get v = .ok s → v = .str s ∨ v = .raw s)
     (hgnh : ∀ v, wfVal v = true → v.isNull = false → (get v).isHazard = false)
-    (args : List Val) (hwf : ∀ v ∈ args, wfVal v = true) (hkf : substrKF args = false) :
+    (args : List Val) (hwf : ∀ v ∈ args, wfVal v = true) :
     (substrLike (m := Res) major nullTy get mk (args.map .ok)).isHazard = false := by
-  have key : ∀ (v0 v1 : Val) (s : Bytes) (a0 b0 : Int64), wfVal v0 = true → get v0 = .ok s →
-      readPos v1 = .ok (.pos a0) → substrKF (v0 :: v1 :: []) = false → ¬ (lenI s == 0) = true →
+  have key : ∀ (v0 : Val) (s : Bytes) (a0 b0 : Int64), wfVal v0 = true → get v0 = .ok s →
       (substrTail s a0 b0 >>= fun r => Res.ok (mk r)).isHazard = false := by
-    intro v0 v1 s a0 b0 w0 hg hp hk hz
+    intro v0 s a0 b0 w0 hg
     have hlen : s.length < 2 ^ 63 := by
       rcases hget v0 s hg with rfl | rfl <;> simpa [wfVal] using w0
-    have hne : s ≠ [] := by
-      intro e; subst e; exact hz rfl
-    have ha : a0 ≠ Int64.minValue := by
-      intro e; subst e
-      have : posArgOf v1 = some Int64.minValue := by simp [posArgOf, hp]
-      rcases hget v0 s hg with rfl | rfl <;> simp [substrKF, this, hne] at hk
-    apply nh_bind _ _ (substrTail_nh s hlen hne a0 b0 ha)
+    apply nh_bind _ _ (substrTail_nh s hlen a0 b0)
     intro _ _; rfl
   rcases args with _ | ⟨v0, _ | ⟨v1, _ | ⟨v2, rest⟩⟩⟩
   · rfl
@@ -213,8 +190,7 @@ theorem substrLike_nh (major : Major) (nullTy : Ty) (get : Val → Res Bytes) (m
     apply nh_bind _ _ (hgnh v0 w0 (nn1 hnn))
     intro s hs
     split; · rfl
-    rename_i hz
-    exact key v0 v1 s _ _ w0 hs hp1 hkf hz
+    exact key v0 s _ _ w0 hs
   · have w0 := hwf v0 (by simp)
     have w1 := hwf v1 (by simp)
     have w2 := hwf v2 (by simp)
@@ -232,8 +208,7 @@ theorem substrLike_nh (major : Major) (nullTy : Ty) (get : Val → Res Bytes) (m
     intro p2 hp2
     split; · rfl
     split; · rfl
-    rename_i hz
-    exact key v0 v1 s _ _ w0 hs hp1 (by simpa [substrKF] using hkf) hz
+    exact key v0 s _ _ w0 hs
 
 
 theorem lrSubstr_nh (left : Bool) (args : List Val) (hwf : ∀ v ∈ args, wfVal v = true) :
@@ -265,48 +240,62 @@ theorem hexLoop_nh (v : Int64) : ∀ (k : Nat) (n s : Int64) (acc : Bytes), n.to
     apply ih
     rw [ht, h1']; omega
 
-/-- The pad-count argument as `hex` reads it. -/
-def hexPadOf (v : Val) : Option Int64 :=
-  if v.isNull then none else
-  match v.type.major with
-  | .int => match v.asInt with | .ok n => some n | _ => none
-  | .num => match v.asNum with
-    | .ok d => (match castToInt d with | .ok n => some n | _ => none)
-    | _ => none
-  | _ => none
+/-- `if (n > 16) n = 16;` (commit cbe22cc): the pad count entering the digit loop is at most 16. -/
+theorem hexClamp_le (n : Int64) : (hexClamp n).toInt ≤ 16 := by
+  unfold hexClamp
+  split
+  · decide
+  · rename_i h
+    have : ¬ ((16 : Int64).toInt < n.toInt) := fun h' => h (Int64.lt_iff_toInt_lt.mpr h')
+    have e : (16 : Int64).toInt = 16 := by decide
+    omega
 
-/-- Region of the recorded finding C10.hex.signedOverflow (= C01.bi.hex.overflow): a pad count
-within 15 of INT64_MAX. -/
-def hexKF (args : List Val) : Bool :=
-  match args with
-  | _ :: v1 :: _ => match hexPadOf v1 with
-    | some n => decide (n.toInt + 15 ≥ 2 ^ 63)
-    | none => false
-  | _ => false
+theorem hexClamp_toInt (n : Int64) : (hexClamp n).toInt = min n.toInt 16 := by
+  unfold hexClamp
+  have e : (16 : Int64).toInt = 16 := by decide
+  split
+  · rename_i h
+    have := Int64.lt_iff_toInt_lt.mp h
+    rw [e]; omega
+  · rename_i h
+    have : ¬ ((16 : Int64).toInt < n.toInt) := fun h' => h (Int64.lt_iff_toInt_lt.mpr h')
+    omega
 
-
-theorem hexPad_int (v : Val) (n : Int64) (hn : (!v.isNull) = true) (hm : v.type.major = .int)
-    (ha : v.asInt = .ok n) : hexPadOf v = some n := by
-  simp [hexPadOf, nn2 hn, hm, ha]
-theorem hexPad_num (v : Val) (d : Num.F64) (n : Int64) (hn : (!v.isNull) = true) (hm : v.type.major = .num)
-    (ha : v.asNum = .ok d) (hc : castToInt d = .ok n) : hexPadOf v = some n := by
-  simp [hexPadOf, nn2 hn, hm, ha, hc]
-theorem hexKF_bound (v0 v1 : Val) (rest : List Val) (n : Int64) (hkf : hexKF (v0 :: v1 :: rest) = false)
-    (hp : hexPadOf v1 = some n) : n.toInt + (15 : Nat) < 2 ^ 63 := by
-  simp only [hexKF, hp, decide_eq_false_iff_not] at hkf
+/-- `HEXExpression::hex` never overflows its pad counter, for EVERY value and pad count. -/
+theorem hexStr_nh (v n : Int64) : (hexStr v n).isHazard = false := by
+  unfold hexStr
+  apply hexLoop_nh
+  have := hexClamp_le n
   omega
 
-theorem hex_nh (args : List Val) (hwf : ∀ v ∈ args, wfVal v = true) (hkf : hexKF args = false) :
+theorem hex_nh (args : List Val) (hwf : ∀ v ∈ args, wfVal v = true) :
     (biHex (m := Res) (args.map .ok)).isHazard = false := by
   nh_args2 args hwf <;> nh_unfold biHex
   · rfl
   · nh_auto
-    all_goals (exact hexLoop_nh _ 15 0 0 [] (by decide))
+    all_goals (exact hexStr_nh _ _)
   · nh_auto
-    all_goals first
-      | exact hexLoop_nh _ 15 0 0 [] (by decide)
-      | exact hexLoop_nh _ 15 _ 0 [] (hexKF_bound _ _ _ _ hkf (hexPad_int _ _ (by assumption) (by assumption) (by assumption)))
-      | exact hexLoop_nh _ 15 _ 0 [] (hexKF_bound _ _ _ _ hkf (hexPad_num _ _ _ (by assumption) (by assumption) (by assumption) (by assumption)))
+    all_goals (exact hexStr_nh _ _)
+
+theorem ipow_nh (a n : Int64) : (Num.ipow a n).isHazard = false := by
+  unfold Num.ipow; repeat' split
+  all_goals rfl
+
+theorem abs_nh (args : List Val) (hwf : ∀ v ∈ args, wfVal v = true) :
+    (biAbs (m := Res) (args.map .ok)).isHazard = false := by
+  nh_args1 args hwf <;> nh_unfold biAbs <;> nh_auto
+
+theorem pow_nh (args : List Val) (hwf : ∀ v ∈ args, wfVal v = true) :
+    (biPow (m := Res) (args.map .ok)).isHazard = false := by
+  nh_args2 args hwf <;> nh_unfold biPow
+  · rfl
+  · rfl
+  · repeat' (first
+      | nh_leaf
+      | exact ipow_nh _ _
+      | (apply nh_bind)
+      | (intro _ _)
+      | split)
 
 theorem intOfDecimal_nh (b : Num.F64) : (Num.intOfDecimal b).isHazard = false := by
   unfold Num.intOfDecimal
@@ -357,8 +346,7 @@ theorem sliceBytes_infix (s : Bytes) (a b : Int64) : sliceBytes s a b <:+: s :=
 (no length or range hypothesis at all). -/
 theorem substrTail_ok_infix (s : Bytes) (a0 b0 : Int64) (r : Bytes) (h : substrTail s a0 b0 = .ok r) : r <:+: s := by
   unfold substrTail at h
-  obtain ⟨a, _, h⟩ := bind_eq_ok _ _ _ h
-  obtain ⟨d, _, h⟩ := bind_eq_ok _ _ _ h
+  obtain ⟨ab, _, h⟩ := bind_eq_ok _ _ _ h
   split at h
   · injection h with h; subst h; exact sliceBytes_infix _ _ _
   · injection h with h; subst h; exact List.nil_infix
